@@ -672,6 +672,15 @@ def cmp(op, a, b):
         return TRUE if r else FALSE
     if a is b:
         return TRUE if op in ("eq", "ule", "sle") else FALSE
+    # canonical form of unsigned comparisons with a constant: always 'ult'
+    if op == "ule" and b.op == "k":
+        if b.args[0] == mask(bits):
+            return TRUE
+        return cmp("ult", a, K(b.args[0] + 1, bits))
+    if op == "ule" and a.op == "k":
+        if a.args[0] == 0:
+            return TRUE
+        return cmp("ult", K(a.args[0] - 1, bits), b)
     if op in ("eq", "ne"):
         ba, bb = bv(a), bv(b)
         for i in range(bits):
